@@ -18,7 +18,7 @@ GeodstStream = repo("armi.nuclearDataIO.cccc.geodst:GeodstStream")
 GeodstData = repo("armi.nuclearDataIO.cccc.geodst:GeodstData")
 
 F32 = [0.5, -1.25, 3.0, 1024.0, 0.0, 7.0]  # exactly representable in single precision
-IGOMS = [0, 1, 3, 6, 10, 11, 12, 14, 18]   # 0-d, 1-d (2D record), 2-d (3D record), 3-d (4D record) geometries
+IGOMS = [0, 1, 3, 6, 11, 12, 18]   # 0-d, 1-d (2D record), 2-d (3D record), 3-d (4D record) geometries: both ends of each range
 I16 = (-99, 99)
 MESHES = [(1, 1, 1), (2, 1, 2), (1, 2, 2), (2, 2, 1)]  # (NCINTI, NCINTJ, NCINTK)
 
@@ -140,7 +140,7 @@ def check_read_back(back, d, head, igom, nrass, nbs, nci, ncj, nck, x, ints, rea
         assert back.fineMeshRegions is None
 
 
-GEN = {"g": (0, 8), "nrass": (0, 2), "nbs": (0, 1), "sh": (0, 3),
+GEN = {"g": (0, 6), "nrass": (0, 2), "nbs": (0, 1), "sh": (0, 3),
        "x0": (0.0, 9.0), "x1": (0.0, 9.0), "x2": (0.0, 9.0), "v0": F32, "v1": F32, "b0": F32, "c0": F32,
        "i0": (-99, 99), "i1": (-99, 99), "i2": (-99, 99), "i3": (-99, 99), "z0": (0, 9), "z1": (0, 9), "z2": (0, 9), "z3": (0, 9),
        "r0": I16, "r1": I16, "r2": I16, "r3": I16, "r4": I16, "r5": I16, "r6": I16, "r7": I16}
@@ -159,10 +159,10 @@ def geodst_file_round_trip(g: int, nrass: int, nbs: int, sh: int, x0: float, x1:
     exactly those the file specification prescribes for the header, each framed with its payload length (8-byte mesh
     boundaries, 4-byte integers and reals), one 6D / 7D record per axial interval; reading gives back the label, the
     27 specification integers, the meshes, the 5D geometry data and the region map (shape and every entry); data of
-    records that are not on the file stay unset.  Enumerated: IGOM in {0,1,3,6,10,11,12,14,18}, NRASS 0..2, NBS 0..1,
-    (NCINTI, NCINTJ, NCINTK) in {(1,1,1),(2,1,2),(1,2,2),(2,2,1)} (216 shapes; 2 regions, 1 zone; the
+    records that are not on the file stay unset.  Enumerated: IGOM in {0,1,3,6,11,12,18}, NRASS 0..2, NBS 0..1,
+    (NCINTI, NCINTJ, NCINTK) in {(1,1,1),(2,1,2),(1,2,2),(2,2,1)} (168 shapes; 2 regions, 1 zone; the
     region map holds 8 symbolic numbers, repeated when it has more cells); all values symbolic."""
-    g = choose(g, 0, 8)
+    g = choose(g, 0, 6)
     igom = IGOMS[g]
     nrass, nbs = choose(nrass, 0, 2), choose(nbs, 0, 1)
     nci, ncj, nck = MESHES[choose(sh, 0, 3)]
@@ -194,7 +194,7 @@ def geodst_rewrite_of_what_was_read_is_the_same_file(g: int, nrass: int, nbs: in
     """write(read(file)) == file: the container read from a GEODST file, written again by the real code, produces the
     same sequence of stream writes (leading count, payload fields, trailing count of every record) - field by field
     equal bytes.  Same enumeration as geodst_file_round_trip."""
-    g = choose(g, 0, 8)
+    g = choose(g, 0, 6)
     igom = IGOMS[g]
     nrass, nbs = choose(nrass, 0, 2), choose(nbs, 0, 1)
     nci, ncj, nck = MESHES[choose(sh, 0, 3)]
